@@ -5,7 +5,8 @@ import ownrules
 
 TECHNIQUE = ("heap-ownership typestate over the configuration parsers, value-set abstract interpretation of the line callbacks' return values "
              "(with constant-argument specialisation and defensive-return pruning), destination-size and index-bound checks by interval "
-             "reasoning on dominating guards, directive->field write table")
+             "reasoning on dominating guards, directive->field write table"
+             ", replace-after-parse ordering, splitter argument table, callee-precondition x dominating fact for empty values, validation-before-conversion and interval bound before scaling, loop-exit vocabulary of the line walkers, forward must-analysis of members written through out-parameters")
 LEVEL_TEXT = ("static: decides on every path of the configuration parsers (a) no leak / double free / use after free, (b) that a line callback can "
               "only return SUCCESS or ENOMEM so one malformed line cannot abort the file, and that the file loop aborts only on a non-SUCCESS "
               "callback result, (c) that every copy into a fixed-size token buffer is bounded by that buffer, (d) that each resolv.conf directive "
